@@ -344,14 +344,17 @@ def msgSwapOut (rate : Dec) (sender : Addr) (prov : Option Addr) (r : Route) (ma
     | .err c => (.err c, w)
     | .panic k => (.panic k, w)
 
-/-- Query/CalculationSwapExactAmountIn → (result, fee, amount_out). The query does not validate the route. -/
+/-- Query/CalculationSwapExactAmountIn → (result, fee, amount_out). As fixed, the query validates the route
+    (Route.Validate, incl. pool reuse) and rejects a non-positive amount before quoting. -/
 def queryIn (rate : Dec) (has : Bool) (r : Route) (a : Int) (w : World PS) : Res Resp :=
+  if !validate r then .err "invalid-route" else if a ≤ 0 then .err "invalid-amount" else
   (calcRouteIn M r a w).bind fun rr =>
     let (_, fee) := feeIn has rate rr.tout.amount
     .ok ⟨rr, fee, rr.tout.amount - fee⟩
 
 /-- Query/CalculationSwapExactAmountOut → (result, fee, amount_in) -/
 def queryOut (rate : Dec) (has : Bool) (r : Route) (a : Int) (w : World PS) : Res (RResult × Int × Int) :=
+  if !validate r then .err "invalid-route" else if a ≤ 0 then .err "invalid-amount" else
   (keeperCalcOut M rate has r a w).bind fun (rr, fee) => .ok (rr, fee, rr.tin.amount)
 
 end keeper
